@@ -30,8 +30,8 @@ add("C02", "rapid-generated lexer specs x texts; compiled state machine driven b
     "Trusts the reference lexer (lib/lexm) and that simplelexer decodes bytes like bytes.Reader.ReadRune; pop on an empty mode stack is treated as unspecified.",
     "DESIGN.md §3 C02")
 add("C07", "rapid-generated mode graphs and action orderings x texts walking the mode graph; compiled lexer vs. reference lexer with explicit mode stack (differential)",
-    "Generated-input search over nested/recursive mode graphs, rules with several mode actions and emit/discard written at any position; streams compared with a reference lexer that applies mode actions in written order and the emit/discard regardless of position.",
-    "Same trusted base as C02.",
+    "Generated-input search over nested/recursive mode graphs, rules with several mode actions and emit/discard written at any position; streams compared with a reference lexer that applies mode actions in written order and the emit/discard regardless of position - also beyond lexical errors, where the reference follows the driver's recovery (rest of the line dropped, default mode) and stops before a pop that would reach below the stack level at the error.",
+    "Same trusted base as C02, plus simplelexer's recovery policy as the definition of where lexing resumes after an error.",
     "DESIGN.md §3 C07")
 add("C08", "rapid-generated non-greedy rules (prefix, body, self-overlapping terminators) x texts with terminator look-alikes; compiled lexer vs. an oracle written directly from the statement; second part: greedy rules sharing a prefix with the non-greedy rule and mode actions on non-greedy rules vs. C02's longest-run rule over the statement's languages",
     "Generated-input search in two parts. Part 1: the token must end at the first occurrence of the terminator after the prefix (>=1 repetition for +?) with all code points in between in the body set; greedy neighbours (disjoint first characters) by the derivative reference lexer. Part 2: greedy rules that share a prefix with the non-greedy rule (its shortest match as a literal, identifier-like rules, literals ending inside the repetition), non-greedy rules pushing / popping modes; every rule has the language the statement gives it and the stream is C02's rule over those languages. The cross-rule defect of the pinned tree is a listed known finding attributed by an exact model of that one behaviour.",
@@ -50,7 +50,7 @@ add("C15", "exhaustive enumeration over a small universe plus rapid-generated ra
     "Generated and exhaustive search on three levels: the range algebra (every list of <=3 ranges over 0..7, every pair of lists of <=2 over 0..5, random lists over the full code space; callbacks replayed), class expressions through the real front end, and boundary probes through automaton construction and the emitted table.",
     "Trusts the interval-set reference (lib/lexm); surrogates excluded from inputs.",
     "DESIGN.md §3 C15")
-add("C19", "rapid-generated multi-file specs with tokens/externals/modes/@emit; constants, _TokenToString, decoded lexer and parser tables vs. the declaration order known by construction",
+add("C19", "rapid-generated multi-file specs with tokens/externals/modes/@emit/macros/non-greedy tokens; constants, _TokenToString, decoded lexer and parser tables vs. the declaration order known by construction",
     "Generated-input search in layer B (real generator, generated text parsed with go/types and the table decoder) plus a compiled sample calling _TokenToString on every value in [-1,n+1].",
     "Declaration order is known by construction of the rendered files; files are read in file-name order.",
     "DESIGN.md §3 C19")
